@@ -23,6 +23,11 @@
 // Expected injected headers are matched token by token; for an encoded blank both "+" and "%20" are
 // accepted, hex digits in either case, and a token character may also appear escaped (the statement
 // pins none of these).
+// An expected extraction result is a PATTERN computed by TLC (Pat in spec/Baggage.tla): {"u": entries (and
+// wildcards) whose key occurs once among the valid members - kept exactly so, in this order; "d": one record
+// {"k","vals","n"} per key that several valid members state - the result holds 1..n entries with that key, each
+// with one of the stated values, at any position}.  GetValue must return the value of every key that is listed
+// once, and one of `vals` for a repeated key.
 // The carrier hands out exactly-sized heap copies without NUL terminator.
 #include <algorithm>
 #include <cctype>
@@ -318,8 +323,51 @@ static bool match_pat(const std::vector<std::pair<bool, std::pair<std::string, s
   }
   return j < o.size() && o[j] == p[i].second && match_pat(p, i + 1, o, j + 1);
 }
-static bool match_list(const Conc &cz, const json &exp, const List &o)
+static bool match_list(const Conc &cz, const json &pat, const List &got, const BgPtr &bag)
 {
+  // the repeated keys (a band of their own) are taken out of the observed list first
+  const json &exp = pat["u"];
+  List o;
+  for (auto &g : got)
+  {
+    bool rep = false;
+    for (auto &d : pat["d"])
+      rep = rep || cz.str(d["k"]) == g.first;
+    if (!rep)
+      o.push_back(g);
+  }
+  for (auto &d : pat["d"])
+  {
+    std::string k = cz.str(d["k"]);
+    std::vector<std::string> vals;
+    for (auto &v : d["vals"])
+      vals.push_back(cz.str(v));
+    size_t cnt = 0;
+    for (auto &g : got)
+      if (g.first == k)
+      {
+        ++cnt;
+        if (std::find(vals.begin(), vals.end(), g.second) == vals.end())
+          return false;
+      }
+    if (cnt < 1 || cnt > d["n"].get<size_t>())
+      return false;
+    std::string v = "<unset>";
+    Buf kb(k);
+    if (!bag->GetValue(kb.view(), v) || std::find(vals.begin(), vals.end(), v) == vals.end())
+      return false;
+  }
+  // GetValue of every key that is listed once returns the listed value
+  for (auto &g : got)
+  {
+    size_t cnt = 0;
+    for (auto &h : got)
+      cnt += h.first == g.first;
+    std::string v = "<unset>";
+    Buf kb(g.first);
+    if (cnt == 1 && (!bag->GetValue(kb.view(), v) || v != g.second))
+      return false;
+  }
   std::vector<std::pair<bool, std::pair<std::string, std::string>>> p;
   for (auto &e : exp)
   {
@@ -558,19 +606,21 @@ static int replay(const char *path)
           b0 = build(cz.list(st["b0"]));
         ExtractOut x = extract(hdr, true, use_b0 ? &b0 : nullptr);
         std::string t;
-        if (match_list(cz, st["exp"], x.got))
+        if (match_list(cz, st["exp"], x.got, x.bag))
           t = "exp";
         else
         {
           for (auto &a : st["alt"])
-            if (t.empty() && match_list(cz, a, x.got))
+            if (t.empty() && match_list(cz, a, x.got, x.bag))
               t = "dc";
           for (auto &d : st["dev"])
-            if (t.empty() && match_list(cz, d["res"], x.got))
+            if (t.empty() && match_list(cz, d["res"], x.got, x.bag))
               t = d["dev"].get<std::string>();
         }
         if (t.empty())
-          fail("extraction result matches neither the expected entries nor a listed alternative", x.got,
+          fail("extraction result matches neither the expected entries (every valid member whose key is its own exactly once, "
+               "in header order; a repeated key 1..n times with stated values; GetValue agreeing) nor a listed alternative",
+               x.got,
                {{"header", show(hdr)}, {"header_bytes", hdr.size()}});
         else if (!x.other_ok)
           fail("Extract disturbed the caller's context", x.got, {{"header", show(hdr)}});
